@@ -187,6 +187,19 @@ package cache
 //@   pure
 //@   ensures result == reMatch(ref(re), s)
 
+// protobuf: Unmarshal fills the message with arbitrary field values.
+//@ extern google.golang.org/protobuf/proto.Unmarshal(b, m)
+//@   modifies pointee(m)
+
+//@ extern io.ReadAll(r)
+//@   pure
+//@   ensures 0 <= len(result0)
+
+//@ extern errors.Is(err, target)
+//@   pure
+//@   ensures (err == nil && target != nil) ==> !result
+//@   ensures (err == target) ==> result
+
 //@ extern context.WithCancel(parent)
 //@   pure
 //@   ensures result0 != nil && result1 != nil
